@@ -68,7 +68,10 @@ CLAIM = dict(
           ".p8 -> .p8.png -> .p8 succeeds at every step and preserves regions and version, the code up to the two readers' "
           "normalisations (lexer-stack facts as hypotheses); C04_p8_png_p8_lexer: the same with the lexer model and echo "
           "writer as the Lua object and every lexer-stack hypothesis discharged, for code without carriage returns "
-          "(C04_p8_png_p8_lexer_cr: with them, the re-lex of the CR->space text stays a hypothesis). PARTIAL: PNG container validity is observed at run time "
+          "(C04_p8_png_p8_lexer_cr: with them, the re-lex of the CR->space text stays a hypothesis). The chain is also "
+          "observed from .p8 files with short sections (newer PICO-8 versions leave out the empty tail of a data section; a "
+          "fix: commit makes the .p8 reader fill them up - before, such a cart lost its code as .p8.png): rows stripped by the "
+          "harness from generated carts, and hand-written minimal carts. PARTIAL: PNG container validity is observed at run time "
           "with an independent PNG reader, not proved."),
     note=("Trusted: Coq kernel+VM, translator + sub-expression hook, ExtrOcamlBasic extraction, OCaml glue, "
           "harness/pngref.py, the hand transcription of the cart image format in Spec/P8PngSpec.v, the hand-modelled "
